@@ -397,6 +397,15 @@ Section CHECK.
     if Z.eqb (c_limit c) 0 then perm_b res (log_rows2 re_match parse_float json_get hash_labels q c d)
     else topk_b (c_asc c) (c_limit c) (log_rows2 re_match parse_float json_get hash_labels q c d) res.
 
+  (* the rows of Plan(script, false): every line the pipeline lets through, sorted by timestamp in the query direction *)
+  Fixpoint ts_sorted_b (asc : bool) (l : list outrow) : bool :=
+    match l with
+    | a :: ((b :: _) as r) => (if asc then Z.leb (o_ts a) (o_ts b) else Z.leb (o_ts b) (o_ts a)) && ts_sorted_b asc r
+    | _ => true
+    end.
+  Definition sem2_bp_b (q : strsel) (c : pctx) (d : database) (res : list outrow) : bool :=
+    perm_b res (log_rows2 re_match parse_float json_get hash_labels q c d) && ts_sorted_b (c_asc c) res.
+
   Definition gin_eqb (a b : gin_row) : bool :=
     Z.eqb (g_day a) (g_day b) && String.eqb (g_key a) (g_key b) && String.eqb (g_val a) (g_val b)
     && Z.eqb (g_fp a) (g_fp b) && Z.eqb (g_type a) (g_type b).
@@ -459,6 +468,7 @@ Record scase := {
   sc_id : Z;
   sc_q : strsel;
   sc_ctx : pctx;
+  sc_fin : bool;                   (* Plan(script, sc_fin): false = the plan that feeds the in-process engine *)
   sc_sql : string;                 (* the implementation's SQL text *)
   sc_tree : select;                (* harness/sqlparse's reading of it *)
   sc_re : re_table;
@@ -477,14 +487,15 @@ Definition days_near (c : pctx) : list Z :=
 (* result of evaluating a SELECT on one database and judging it: 0 = reference answer, 1 = not the
    reference answer, 2 = does not evaluate inside the modelled subset *)
 Definition judge (rg : ReGroups) (re : string -> string -> bool) (pf : string -> option Q) (jg : string -> list string -> string)
-    (hl : labels -> Z) (tie : forall A : Type, list A -> list A)
+    (hl : labels -> Z) (tie : forall A : Type, list A -> list A) (fin : bool)
     (q : strsel) (c : pctx) (d : database) (sel : select) : Z * option (list (option outrow)) :=
   match eval (RG := rg) re pf jg hl tie (to_sqldb c d) sel with
   | None => (2, None)
   | Some rows =>
     let outs := map row_out rows in
     match map_opt (fun o => o) outs with
-    | Some os => ((if sem2_b (RG := rg) re pf jg hl q c d os then 0 else 1)%Z, Some outs)
+    | Some os => ((if (if fin then sem2_b (RG := rg) re pf jg hl q c d os else sem2_bp_b (RG := rg) re pf jg hl q c d os)
+                   then 0 else 1)%Z, Some outs)
     | None => (1%Z, Some outs)
     end
   end.
@@ -523,15 +534,16 @@ Definition check_case (s : scase) : cverdict :=
   let q := sc_q s in let c := sc_ctx s in
   let impl := prep (days_near c) (frag_cands q) (sc_tree s) in
   let text_ok := match render impl false with Some t => String.eqb t (sc_sql s) | None => false end in
-  let msel := log_select q c in
+  let fin := sc_fin s in
+  let msel := if fin then log_select q c else bp_select q c in
   {| cv_id := sc_id s; cv_fragment := in_fragment q; cv_fragment2 := in_fragment2 q; cv_width := width_guard q; cv_ctx_ok := ctx_ok c;
      cv_text_ok := text_ok;
      cv_model_sel := match msel with Some _ => true | None => false end;
      cv_wrefs := match msel with Some m => wrefs_bound m | None => true end;
      cv_dbs := map (fun d =>
-       let '(vi, got) := judge rg re pf jg hl tie_id q c d impl in
-       let '(vr, _) := judge rg re pf jg hl tie_rev q c d impl in
-       let '(vm, mgot) := match msel with Some m => judge rg re pf jg hl tie_id q c d m | None => (2%Z, None) end in
+       let '(vi, got) := judge rg re pf jg hl tie_id fin q c d impl in
+       let '(vr, _) := judge rg re pf jg hl tie_rev fin q c d impl in
+       let '(vm, mgot) := match msel with Some m => judge rg re pf jg hl tie_id fin q c d m | None => (2%Z, None) end in
        {| v_db_ok := db_ok_b c d; v_absent := absent_guard_b re q d; v_oracle := oracle_ok_b (RG := rg) re pf q d;
           v_impl := vi; v_impl_rev := vr; v_model := vm; v_same := same_rows got mgot; v_got := got;
           v_want := log_rows2 (RG := rg) re pf jg hl q c d; v_nsamples := Z.of_nat (List.length (d_samples d)) |}) (sc_dbs s) |}.
